@@ -943,6 +943,21 @@ func VH_CoalesceBroken() {
 	if msgs == nil {
 		return
 	}
+	// independence: what another, well-formed group coalesces to is the same before and after the
+	// broken group was handled (both times parsed afresh from the same text)
+	other := vGroups[(gi+1)%len(vGroups)]
+	refEv, _ := CoalesceMessages(vParseGroup(other, "78"))
+	ref := vEventDigest(refEv)
+	defer func() {
+		om := vParseGroup(other, "78")
+		againEv, _ := CoalesceMessages(om)
+		vAssert(vEventDigest(againEv) == ref, "C15/outcome-for-other-messages-depends-on-what-was-coalesced-before")
+		for _, m := range om {
+			d, _ := m.Data()
+			_, leaked := d["zzleak"]
+			vAssert(!leaked, "C15/outcome-for-other-messages-depends-on-what-was-coalesced-before")
+		}
+	}()
 	i := vChoose("broken", len(msgs))
 	switch vChoose("how", 3) {
 	case 0:
@@ -950,7 +965,7 @@ func VH_CoalesceBroken() {
 	case 1:
 		msgs[i] = auparse.VNewMessage(msgs[i].RecordType, 77, 1490137971, map[string]string{}, nil, nil)
 	case 2:
-		if m, err := auparse.Parse(msgs[i].RecordType, "audit(1490137971.011:77): arch=zz syscall=x a0= saddr=0 argc=z mode=9 \x01"); err == nil {
+		if m, err := auparse.Parse(msgs[i].RecordType, "audit(1490137971.011:77): arch=zz syscall=x a0= saddr=0 argc=z mode=9 zzleak=1 \x01"); err == nil {
 			msgs[i] = m
 		}
 	}
